@@ -21,7 +21,7 @@ INFO = {
     "same result for LR (when both construct) and the same SET of call_actions results over the GLR forests.  Greedy "
     "pairs: same acceptance as the non-greedy twin, and the greedy GLR forest has exactly one tree whose result equals "
     "that of the non-greedy tree maximising the consumption of the greedy repetitions from left to right.",
-    "bounds": {"quick": {"N": 5, "pairs": 17, "greedy": 7}, "thorough": {"N": 7}},
+    "bounds": {"quick": {"N": 5, "pairs": 17, "greedy": 7}, "thorough": {"N": 6}},
     "outside": "inputs longer than N; rule shapes other than the listed pairs",
     "assumptions": ["get_context stubbed; realize-atomic marks", "the plain-BNF expansions are hand-derived from docs/grammar_language.md"],
 }
@@ -86,7 +86,7 @@ GREEDY = {
 
 def cases(tier, seed):
     out = []
-    N = 5 if tier == "quick" else 7
+    N = 5 if tier == "quick" else 6
     for nm in PAIRS:
         n_ = 4 if (tier == "quick" and nm == "falsy-plus") else N  # five terminals: one character less keeps the quick tier short
         out.append({"name": "pair:%s|N=%d" % (nm, n_), "params": {"kind": "pair", "pair": nm, "N": n_}, "budget_s": 3000})
